@@ -231,9 +231,13 @@ def rule_utf16_tables(ctx):
     bed = [v for n in d.all_nodes() if n["k"] == "decl" for v in n["vars"] if v["n"] == "be"]
     r.check(len(bed) == 1 and expr_str(d, bed[0]["init"]) == "enc == e_UTF16_BE", "decode/be-from-enc", db.loc(d, d.l0), "be flag is %s" % (expr_str(d, bed[0]["init"]) if bed else None))
     # ranges accepted by both: [0,0xD800) u [0xE000, ...)
-    wconds = [expr_str(w, blk["term"].get("c")) for blk in w.blocks.values() if blk.get("term") and blk["term"]["k"] == "IfStmt"]
+    def _half_open(t):
+        """`x <= K` reads `x < K+1` and `x > K` reads `x >= K+1` (integer literals): range tests are compared as half-open intervals"""
+        t = re.sub(r"<= (\d+)", lambda m: "< %d" % (int(m.group(1)) + 1), t)
+        return re.sub(r"(?<![<>=])> (\d+)", lambda m: ">= %d" % (int(m.group(1)) + 1), t)
+    wconds = [_half_open(expr_str(w, blk["term"].get("c"))) for blk in w.blocks.values() if blk.get("term") and blk["term"]["k"] == "IfStmt"]
     r.check(any("ch < 55296" in c and "ch >= 57344" in c for c in wconds), "write/bmp-range", db.loc(w, w.l0), "writer's BMP range test changed: %s" % wconds)
-    r.check(any("ch >= 0 && ch < 55296 || ch >= 57344" in expr_str(d, blk["term"].get("c")) for blk in d.blocks.values() if blk.get("term") and blk["term"]["k"] == "IfStmt"),
+    r.check(any("ch >= 0 && ch < 55296 || ch >= 57344" in _half_open(expr_str(d, blk["term"].get("c"))) for blk in d.blocks.values() if blk.get("term") and blk["term"]["k"] == "IfStmt"),
             "decode/bmp-range", db.loc(d, d.l0), "decoder's BMP range test changed")
     r.floor(12)
 
